@@ -235,12 +235,12 @@ Proof. induction segs; simpl; auto. rewrite IHsegs. reflexivity. Qed.
    (piecewise) time-domain control matrix, for every pulse with Hermitian noise operators / basis elements and
    non-negative durations, at every frequency where no first-order entry is on its Taylor branch with non-zero argument. *)
 Theorem F2_assembly evs Vs Qs ncoeffs dts a b k l o :
-  0 <= thr2 <= thr ->
+  0 <= thr -> 0 <= thr2 ->
   (forall N, In N nopers -> fherm d (toF N)) -> (forall Ck, In Ck basis -> fherm d (toF Ck)) ->
   length evs = length dts -> length Vs = length dts -> (length dts <= length Qs)%nat -> length ncoeffs = na ->
   (forall dt, In dt dts -> 0 <= dt) ->
   (a < na)%nat -> (b < na)%nat -> (k < nk)%nat -> (l < nk)%nat -> (o < no)%nat ->
-  no_taylor d omega thr evs dts o ->
+  no_taylor d omega thr evs dts o -> no_taylor d omega thr2 evs dts o ->
   let ts := times RO dts in
   let segs := fresh_segs d thr omega basis nopers evs Vs Qs ts dts (transpose_coeffs RO (length dts) ncoeffs) in
   let w := vg RO omega o in
@@ -251,7 +251,7 @@ Theorem F2_assembly evs Vs Qs ncoeffs dts a b k l o :
        is_CInt (fun t' => cmul' (cexp' (w * t')) (Bpw d b l segs 0 t')) 0 t (Gam t)) /\
     is_CInt (fun t => cmul' (cmul' (cexp' (- w * t)) (Bpw d a k segs 0 t)) (Gam t)) 0 tau (a5get RO F2 a b k l o).
 Proof.
-  intros Hthr HN HC H1 H2 H3 H5 Hdt Ha Hb Hk Hl Ho Hmask ts segs w tau F2.
+  intros Hthr Hthr2 HN HC H1 H2 H3 H5 Hdt Ha Hb Hk Hl Ho Hmask Hmask2 ts segs w tau F2.
   assert (H4 : (length dts <= length ts)%nat) by (unfold ts, times; rewrite cumsum_from_length; lia).
   destruct (F2_assembly_partial d thr thr2 omega basis nopers evs Vs Qs ncoeffs dts ts a b k l o) as [Hval Htd]; auto.
   fold segs in Hval, Htd.
